@@ -157,7 +157,15 @@ func main() {
 	out := flag.String("out", "", "result JSON path")
 	dump := flag.String("dumpcases", "", "write the driver input lines here (debug)")
 	replay := flag.String("replay", "", "replay file to re-run")
+	dumpspecs := flag.String("dumpspecs", "", "write Generated/StdlibSpecs.lean into this directory and exit")
 	flag.Parse()
+	if *dumpspecs != "" {
+		if err := dumpSpecs(*dumpspecs); err != nil {
+			fmt.Fprintln(os.Stderr, err)
+			os.Exit(2)
+		}
+		return
+	}
 	if *replay != "" {
 		os.Exit(doReplay(*replay, *drv))
 	}
